@@ -46,6 +46,10 @@ LAYOUTS = {
     "own_then_star_all": {"vq_m1.py": M1 + "__all__ = ['f', 'C']\n", "vq_m2.py": "V = 'own V'\nfrom vq_m1 import *\n"},
     "alias_and_own": {"vq_m1.py": M1, "vq_m2.py": "def f():\n    return 'own f'\nfrom vq_m1 import f as g\nfrom vq_m1 import C, V\n"},
     "reexport_module_alias": {"vq_m1.py": M1, "vq_m2.py": "import vq_m1 as vq_h\nimport json as vq_js\nimport vq_m1\nfrom vq_m1 import f, C, V\n"},
+    # a module that binds a name privately and hides it with __all__, alone and behind a star re-export (added after the
+    # seeded change C18-star-all-not-forwarded)
+    "private_behind_all": {"vq_m1.py": M1, "vq_m2.py": "def draw():\n    return 'd'\ndef f():\n    return 'private f'\n__all__ = ['draw']\n",
+                           "vq_m3.py": "from vq_m2 import *\n"},
     "package": {"vq_p/__init__.py": "from vq_p.vq_sub import f, C\nfrom vq_p import vq_sub\n", "vq_p/vq_sub.py": M1},
 }
 
@@ -82,6 +86,11 @@ CLIENTS = {
     "from_module_plain": "from {M} import vq_m1\nvq_sink(vq_m1, vq_m1.f)\n",
     "from_stdlib_alias": "from {M} import vq_js\nvq_sink(vq_js, vq_js.dumps)\n",
     "from_module_alias_and_name": "from {M} import vq_h, f\nvq_sink(vq_h.f, f)\n",
+    "star_after_star": "from vq_m1 import *\nfrom {M} import *\nvq_sink(f, C)\n",
+    "star_before_star": "from {M} import *\nfrom vq_m1 import *\nvq_sink(f, C)\n",
+    "star_after_star_three": "from vq_m1 import *\nfrom {M} import *\nfrom json import *\nvq_sink(f, C, dumps)\n",
+    "in_function_shadows_module_name": "f = 'client f'\ndef g():\n    from {M} import f\n    return f\nvq_sink(g(), f)\n",
+    "in_function_shadows_module_var": "C = 'client C'\ndef g():\n    from {M} import C\n    return C\nvq_sink(g(), C)\n",
     "two_modules_same_name": "from {M} import f\nfrom vq_m1 import f as f1\nvq_sink(f, f1)\n",
 }
 STDLIB_CLIENTS = {
